@@ -227,7 +227,7 @@ func visitInstr(fr *frame, instr ssa.Instruction) continuation {
 		default:
 			res := make([]value, 0, len(instr.Results))
 			for _, r := range instr.Results {
-				res = append(res, fr.get(r))
+				res = append(res, fr.getLate(instr, r))
 			}
 			fr.result = tuple(res)
 		}
@@ -406,7 +406,7 @@ func (fr *frame) jump(to *ssa.BasicBlock) {
 			fr.backEdges = make(map[*ssa.BasicBlock]int)
 		}
 		fr.backEdges[to]++
-		if n := fr.backEdges[to]; n > fr.p.loopBound {
+		if n := fr.backEdges[to]; n > fr.p.loopBound && !fr.p.initPhase && !fr.i.P.isHarnessFn(fr.fn) {
 			// harness/engine-support code (zz files, intrinsic helpers) is exempt
 			panic(pathEnd{StBound, fmt.Sprintf("loop bound %d exceeded in %s (block %d)%s", fr.p.loopBound, fr.fn, to.Index, loc(fr.fn.Prog.Fset, firstPos(to)))})
 		}
@@ -562,6 +562,10 @@ func callSSA(i *interpreter, caller *frame, callpos token.Pos, fn *ssa.Function,
 	if in := i.intrinsicFor(fn); in != nil {
 		return in(fr, args)
 	}
+	if p.initPhase && strings.HasPrefix(fnPkgPath(fn), "github.com/alecthomas/participle") {
+		// parser construction is reflection driven; package-level parsers stay nil
+		return zeroResult(fn)
+	}
 	if fn.Blocks == nil {
 		if fn.Synthetic != "" && strings.Contains(fn.Synthetic, "wrapper") {
 			panic(pathEnd{StUnsupported, "no body for synthetic " + fn.String()})
@@ -671,7 +675,7 @@ func runFrame(fr *frame) {
 		if fr.inRepo {
 			p.repoInstr += int64(len(nonPhis))
 		}
-		if p.instrCount > p.maxInstr {
+		if p.instrCount > p.maxInstr && !p.initPhase {
 			panic(pathEnd{StBound, fmt.Sprintf("instruction budget %d exceeded in %s", p.maxInstr, fr.fn)})
 		}
 		for _, instr := range nonPhis {
@@ -754,4 +758,70 @@ func doRecover(caller *frame) value {
 		}
 	}
 	return iface{}
+}
+
+// fnPkgPath returns the import path of the package a function belongs to
+// (through its origin for instantiations, its receiver for synthetic wrappers).
+func fnPkgPath(fn *ssa.Function) string {
+	f := fn
+	for f.Parent() != nil {
+		f = f.Parent()
+	}
+	if f.Origin() != nil {
+		f = f.Origin()
+	}
+	if f.Pkg != nil {
+		return f.Pkg.Pkg.Path()
+	}
+	if o := f.Object(); o != nil && o.Pkg() != nil {
+		return o.Pkg().Path()
+	}
+	if recv := f.Signature.Recv(); recv != nil {
+		if n, ok := derefNamed(recv.Type()); ok && n.Obj() != nil && n.Obj().Pkg() != nil {
+			return n.Obj().Pkg().Path()
+		}
+	}
+	return ""
+}
+
+// getLate reads a result operand of a multi-value return the way the gc
+// compiler orders it: function calls in the operand list are performed first,
+// plain variable reads happen when the results are assigned. go/ssa loads the
+// variable in source order instead; the order is unspecified by the language
+// and gc's is the one users run (e.g. `return s, evaluate(&s, ...)`).
+func (fr *frame) getLate(ret *ssa.Return, r ssa.Value) value {
+	ld, ok := r.(*ssa.UnOp)
+	if !ok || ld.Op != token.MUL || ld.Block() != ret.Block() {
+		return fr.get(r)
+	}
+	switch ld.X.(type) {
+	case *ssa.Alloc, *ssa.Global, *ssa.FreeVar:
+	default:
+		return fr.get(r)
+	}
+	if refs := ld.Referrers(); refs == nil || len(*refs) != 1 {
+		return fr.get(r)
+	}
+	if ld.Pos() == token.NoPos || ret.Pos() == token.NoPos || ld.Pos() < ret.Pos() {
+		return fr.get(r)
+	}
+	// is there a call between the load and the return?
+	seenLoad, callAfter := false, false
+	for _, in := range ret.Block().Instrs {
+		if in == ssa.Instruction(ld) {
+			seenLoad = true
+			continue
+		}
+		if seenLoad {
+			if _, isCall := in.(*ssa.Call); isCall {
+				callAfter = true
+				break
+			}
+		}
+	}
+	if !callAfter {
+		return fr.get(r)
+	}
+	addr := fr.get(ld.X).(*value)
+	return load(deref(ld.X.Type()), addr)
 }
